@@ -348,7 +348,9 @@ def r04_4(ctx, rep):
     fn = ms.get("enterDeclaration")
     if fn is None:
         raise MechanismMissing(R, "enterDeclaration not found")
-    # local aliases of self.comp_clause.<attr>
+    # local aliases of self.comp_clause.<attr> (explanatory temporaries such as `clause = self.comp_clause` are resolved first)
+    from ..pyutil import inline_simple_locals
+    fn = inline_simple_locals(fn)
     alias = {}
     shared = set()
     for n in walk_local(fn):
@@ -363,7 +365,7 @@ def r04_4(ctx, rep):
                 continue
             if isinstance(t, ast.Name):
                 alias[t.id] = src
-            elif isinstance(t, ast.Attribute) and isinstance(t.value, ast.Name):
+            elif isinstance(t, ast.Attribute) and isinstance(t.value, (ast.Name, ast.Attribute)):
                 shared.add(t.attr)
     if len(shared) < 3:
         raise MechanismMissing(R, "expected >=3 fields shared by reference in enterDeclaration, found %s" % sorted(shared))
@@ -373,8 +375,8 @@ def r04_4(ctx, rep):
     per_symbol = set()
     xd = ms.get("exitDeclaration")
     if xd is not None:
-        for n in walk_local(xd):
-            if isinstance(n, ast.Assign) and isinstance(n.targets[0], ast.Attribute) and isinstance(n.targets[0].value, ast.Name):
+        for n in walk_local(inline_simple_locals(xd)):
+            if isinstance(n, ast.Assign) and isinstance(n.targets[0], ast.Attribute) and isinstance(n.targets[0].value, (ast.Name, ast.Attribute)):
                 per_symbol.add(n.targets[0].attr)
     for hname in ("exitComponent_clause", "exitComponent_clause1"):
         h = ms.get(hname)
